@@ -1,6 +1,7 @@
 package jschema
 
 import (
+	stdBytes "bytes"
 	stdErrors "errors"
 	"fmt"
 
@@ -109,7 +110,7 @@ func (b *exampleBuilder) buildExampleForObjectNode(node *internalSchema.ObjectNo
 		buf.Write(ex)
 	}
 	buf.WriteRune('}')
-	return buf.Bytes(), nil
+	return copyOfBuffer(buf), nil
 }
 
 func (b *exampleBuilder) buildObjectKey(k internalSchema.ObjectNodeKey) ([]byte, error) {
@@ -161,7 +162,7 @@ func (b *exampleBuilder) buildExampleForArrayNode(node *internalSchema.ArrayNode
 		buf.Write(ex)
 	}
 	buf.WriteRune(']')
-	return buf.Bytes(), nil
+	return copyOfBuffer(buf), nil
 }
 
 func (b *exampleBuilder) buildExampleForMixedValueNode(node *internalSchema.MixedValueNode) ([]byte, error) {
@@ -242,7 +243,7 @@ func buildExampleForObjectNode(
 		}
 	}
 	b.WriteRune('}')
-	return b.Bytes(), nil
+	return copyOfBuffer(b), nil
 }
 
 func buildExampleForArrayNode(
@@ -270,10 +271,17 @@ func buildExampleForArrayNode(
 		}
 	}
 	b.WriteRune(']')
-	return b.Bytes(), nil
+	return copyOfBuffer(b), nil
 }
 
 var exampleBufferPool = sync.NewBufferPool(512)
+
+// copyOfBuffer returns a copy of the buffer's content. The buffer itself goes back
+// to the pool (and will be reused by the next Example call, maybe in another
+// goroutine), so its bytes must never be handed out.
+func copyOfBuffer(b *stdBytes.Buffer) []byte {
+	return append([]byte(nil), b.Bytes()...)
+}
 
 func buildExampleForMixedValueNode(
 	node *internalSchema.MixedValueNode,
